@@ -35,3 +35,6 @@ pub use eval_number::{eval_number, Number};
     feature = "eval_number"
 ))]
 pub use utils::ParseError;
+
+#[cfg(feature = "verif_hooks")]
+pub mod verif_hooks;
